@@ -63,7 +63,7 @@ func RunPlan(args []string, opts GlobalOptions) error {
 		}
 
 		now := time.Now().UTC()
-		epicID, err := newShortID(workingIDs)
+		epicID, err := newShortID(workingIDs, graph.Tombstones)
 		if err != nil {
 			return err
 		}
@@ -109,7 +109,7 @@ func RunPlan(args []string, opts GlobalOptions) error {
 				taskBody = *taskInput.Body
 			}
 
-			taskID, err := newShortID(workingIDs)
+			taskID, err := newShortID(workingIDs, graph.Tombstones)
 			if err != nil {
 				return err
 			}
